@@ -370,6 +370,8 @@ def drive(reader, stream, mode="iterate", max_none=0, resume_on_raise=True, max_
     object to the next)."""
     import gc
 
+    if not hasattr(reader, "read"):
+        reader = reader()  # a factory: nobody but this loop ever references the reader object
     events = []
     nones = 0
     nframes = 0
@@ -649,17 +651,23 @@ class _Reporter:
 
 
 def make_handler(opt):
-    """(constructor kwargs, list that records every handler invocation)"""
+    """(factory of constructor kwargs, list that records every handler
+    invocation).  The factory is called inside the RTCMReader(...) call
+    expression, so that for the 'ephemeral' kind nothing but the reader itself
+    can keep the handler (and the object it is bound to) alive."""
     calls = []
     if not opt:
-        return {}, calls
+        return (lambda: {}), calls
     if opt in (True, "method"):
-        return {"errorhandler": calls.append}, calls
+        return (lambda: {"errorhandler": calls.append}), calls
     if opt == "function":
-        return {"errorhandler": lambda err: calls.append(err)}, calls
+        fn = lambda err: calls.append(err)  # noqa: E731
+        return (lambda: {"errorhandler": fn}), calls
     if opt == "collector":
-        return {"errorhandler": _Collector(calls)}, calls
+        col = _Collector(calls)
+        return (lambda: {"errorhandler": col}), calls
     if opt == "ephemeral":
         # bound method of an object the application keeps no other reference to
-        return {"errorhandler": _Reporter(calls).on_error}, calls
-    return {"errorhandler": _Falsy(calls)}, calls
+        return (lambda: {"errorhandler": _Reporter(calls).on_error}), calls
+    fal = _Falsy(calls)
+    return (lambda: {"errorhandler": fal}), calls
